@@ -20,6 +20,12 @@ Contract checked at run time on the REAL functions:
       beyond Content-Length by all of them together (K5.read_beyond_content_length).  With max_body_size below the body
       length the original is refused; the handler swallows that refusal and asks the copies: they are refused too or
       present the exact body -- never bytes from the middle of the stream -- and nothing is read beyond Content-Length.
+  K6 (end to end, history "the server stream is replaced": `request['wsgi.input'] = new_stream`, the documented environ
+      setter, after the body was already presented once or twice; the new stream has the same length and Content-Length
+      stays what it was, optionally re-assigned with the same value): the body presented BEFORE the replacement is the
+      first Content-Length bytes of the first stream (K6.before), the body presented AFTER it is the first Content-Length
+      bytes the NEW stream delivers, twice (K6.after_swap_exact -- never the bytes of the replaced stream), neither
+      stream is read beyond Content-Length (K6.read_beyond_content_length), nothing is refused (K6.exception/K6.status).
 """
 import io
 import itertools
@@ -37,7 +43,12 @@ BOUND = ('bodies of length 0..9 (quick) / 0..12 (thorough) over a 3-letter alpha
          'Request.copy(): payload of 1/4/9 bytes followed by 4 bytes of the next request x CL in {0,n,n+2,n+6} x max_memfile_size '
          '1/3/16 x 4 scripts x 2 tails x {application handler, bare Request} x order {original read first then copy, copy of the '
          'copy, original again; copy taken before any access and only the copies read} x max_body_size {none, 2 = refusal '
-         'swallowed by the handler}')
+         'swallowed by the handler}; '
+         'replaced stream (K6): first stream of 1/4/9 bytes + 4 bytes of the next request, second stream of the same length '
+         'with other bytes, x CL in {0,n-1,n,n+2} x max_memfile_size 1/3/16 (in memory and spilled) x 4 scripts of the first '
+         'x 2 scripts of the second stream (full / 1-byte short reads) x 2 tails x {application handler, bare Request} x '
+         '{CONTENT_LENGTH left alone, re-assigned with the same value} x {body read once, twice before the replacement}, '
+         'exhaustive; plus 150 (quick) / 1500 (thorough) seeded random pairs of streams of equal length 0..400')
 NONTRIVIAL_RULE = 'distinct (kind, body, CL, buffer, script); non-trivial = body non-empty and CL > 0'
 
 
@@ -61,6 +72,33 @@ def gen_copy_cases(tier):
                                 for max_body in (None, 2):
                                     yield dict(kind='copy', level=level, order=order, max_body=max_body, data=data, cl=cl,
                                                buff=buff, script=list(script), tail=tail)
+
+
+def gen_swap_cases(tier, seed):
+    for n in (1, 4, 9):
+        data = bytes((97 + i) for i in range(n)) + b'NEXT'
+        data2 = bytes((65 + i) for i in range(n)) + b'next'
+        for cl in (0, n - 1, n, n + 2):
+            for buff in (1, 3, 16):
+                for script in ((), (1,), (2, 1), (1, 1, 1)):
+                    for script2, tail2 in (((), 0), ((1, 1), 1)):
+                        for tail in (0, 1):
+                            for level in ('app', 'req'):
+                                for set_cl in (False, True):
+                                    for reads_before in (1, 2):
+                                        yield dict(kind='swap', level=level, data=data, data2=data2, cl=cl, buff=buff,
+                                                   script=list(script), tail=tail, script2=list(script2), tail2=tail2,
+                                                   set_cl=set_cl, reads_before=reads_before)
+    rnd = random.Random(seed + 2)
+    for _ in range(150 if tier == 'quick' else 1500):
+        n = rnd.randrange(0, 400)
+        data = bytes(rnd.randrange(256) for _ in range(n))
+        data2 = bytes(rnd.randrange(256) for _ in range(n))
+        yield dict(kind='swap', level=rnd.choice(['app', 'req']), data=data, data2=data2,
+                   cl=rnd.choice([n, n, rnd.randrange(0, n + 5)]), buff=rnd.choice([1, 7, 64, 500]),
+                   script=[rnd.choice([0, 1, 2, 5, 33]) for _ in range(rnd.randrange(6))], tail=rnd.choice([0, 1, 3, 50]),
+                   script2=[rnd.choice([0, 1, 2, 5, 33]) for _ in range(rnd.randrange(6))], tail2=rnd.choice([0, 1, 3, 50]),
+                   set_cl=rnd.choice([False, True]), reads_before=rnd.choice([1, 2]))
 
 
 def gen_cases(tier, seed):
@@ -90,6 +128,8 @@ def gen_cases(tier, seed):
                     for tail in (0, 1, 2):
                         yield dict(kind='app', data=data, cl=cl, buff=buff, script=list(script), tail=tail)
     for c in gen_copy_cases(tier):
+        yield c
+    for c in gen_swap_cases(tier, seed):
         yield c
     rnd = random.Random(seed)
     for _ in range(300 if tier == 'quick' else 3000):
@@ -168,6 +208,8 @@ def run_case(case):
         return None
     if case['kind'] == 'copy':
         return run_copy(case, stream, exp)
+    if case['kind'] == 'swap':
+        return run_swap(case, stream, exp)
     if case['kind'] == 'req':
         # the bare Request object on an environ (no routing), REQUEST_METHOD as given or absent
         from ombott.request_pkg.request import Request
@@ -267,4 +309,47 @@ def run_copy(case, stream, exp):
             return fail('K5.refused_without_reason', who=name, outcomes=outcomes)
     if stream.consumed > max(cl, 0):
         return fail('K5.read_beyond_content_length', consumed=stream.consumed, cl=cl, outcomes=outcomes)
+    return None
+
+
+def run_swap(case, stream, exp):
+    """K6: the server stream is replaced (request['wsgi.input'] = new stream of the same length) after the body was
+    presented; the body presented afterwards is the first Content-Length bytes of the NEW stream"""
+    import ombott
+    from ombott.request_pkg.request import Request
+    cl, buff = case['cl'], case['buff']
+    stream2 = FragStream(case['data2'], case['script2'], case['tail2'] or None)
+    exp2 = expected(case['data2'], cl)
+    cfg = {'max_memfile_size': buff}
+    env = make_environ('/b', 'POST', stream=stream, content_length=cl)
+    seen = {}
+
+    def play(req):
+        seen['before'] = [req.body.read() for _ in range(case['reads_before'])]
+        req['wsgi.input'] = stream2
+        if case['set_cl']:
+            req['CONTENT_LENGTH'] = str(cl)   # "accordingly": the same length
+        seen['after'] = [req.body.read(), req.body.read()]
+        seen['input_is_copy'] = req.environ['wsgi.input'] is req.body
+        return 'ok'
+
+    if case['level'] == 'req':
+        try:
+            play(Request(env, config=cfg))
+        except Exception as e:  # noqa - recorded
+            return fail('K6.exception', exc=repr(e), seen=seen)
+    else:
+        app = ombott.Ombott(cfg)
+        app.route('/b', method='POST', callback=lambda: play(app.request))
+        res = serve(app, env)
+        if res.code != 200:
+            return fail('K6.status', status=res.status, errors=res.errors[-400:], seen=seen)
+    if any(b != exp for b in seen['before']):
+        return fail('K6.before', expected=exp, observed=seen['before'])
+    if any(b != exp2 for b in seen['after']):
+        return fail('K6.after_swap_exact', expected=exp2, observed=seen['after'], replaced_stream_body=exp)
+    if not seen['input_is_copy']:
+        return fail('K6.input_replaced')
+    if stream.consumed > max(cl, 0) or stream2.consumed > max(cl, 0):
+        return fail('K6.read_beyond_content_length', consumed_first=stream.consumed, consumed_second=stream2.consumed, cl=cl)
     return None
